@@ -339,4 +339,47 @@ UpdateRow(r, set) == ApplySet(r, r, set, 1)
 \* rows of table T selected by an updateable query whose result rows extend table rows
 Selected(T, S, TC) == {t \in T : \E s \in S : SameOn(t, s, TC \cap DOMAIN s)}
 
+-----------------------------------------------------------------------------
+(* C22: composite index ranges of a where (where3.go explodeIndexSpans).     *)
+(* icols = index columns <<c1..cn>>, alts[i] = sequence of distinct values   *)
+(* column ci is constrained to (is / in).  The where reads the index once    *)
+(* per PREFIX; the prefixes are the cross product, built column by column:   *)
+(* every prefix of length i-1 is extended with every alternative of ci.      *)
+(* shared = deviation: the extensions of one prefix by the alternatives of   *)
+(* the LAST column share their storage, so each holds the last alternative.  *)
+RECURSIVE Explode(_, _, _)
+Explode(alts, n, shared) ==
+    IF n = 0 THEN << <<>> >>
+    ELSE LET pre == Explode(alts, n - 1, shared)
+             m == Len(alts[n])
+             ext(p, j) == p \o << IF shared /\ n = Len(alts) THEN alts[n][m] ELSE alts[n][j] >>
+         IN [k \in 1..(Len(pre) * m) |-> ext(pre[((k - 1) \div m) + 1], ((k - 1) % m) + 1)]
+
+\* the rows each read of the index delivers (one set per prefix, in prefix order)
+IndexReads(rows, icols, alts, shared) ==
+    LET ps == Explode(alts, Len(icols), shared)
+    IN [k \in 1..Len(ps) |-> {r \in rows : \A i \in 1..Len(icols) : r[icols[i]] = ps[k][i]}]
+
+RECURSIVE SumCard(_)
+SumCard(sets) == IF sets = <<>> THEN 0 ELSE Cardinality(Head(sets)) + SumCard(Tail(sets))
+
+-----------------------------------------------------------------------------
+(* C24: an insert query whose source scans the TARGET table in the order of  *)
+(* column c and inserts f(row) for every row.  buffered: all rows are read   *)
+(* before the first is written (action.go insertQueryAction); otherwise      *)
+(* (deviation) reading and writing alternate and the scan comes across rows  *)
+(* the statement itself has inserted ahead of its position.                  *)
+(* Result: [rows |-> table afterwards, n |-> rows inserted].                 *)
+MinBy(S, c) == CHOOSE r \in S : \A r2 \in S : VLe(r[c], r2[c])
+
+RECURSIVE ScanInsert(_, _, _, _, _, _, _)
+ScanInsert(cur, todo, n, c, f(_), buffered, fuel) ==
+    \* todo: rows the scan has not yet passed
+    IF todo = {} \/ fuel = 0 THEN [rows |-> cur, n |-> n]
+    ELSE LET r == MinBy(todo, c)
+             new == f(r)
+             \* streaming: an inserted row beyond the scan position will be read too
+             seen == IF ~buffered /\ new \notin cur /\ VLt(r[c], new[c]) THEN {new} ELSE {}
+         IN ScanInsert(cur \cup {new}, (todo \ {r}) \cup seen, n + 1, c, f, buffered, fuel - 1)
+
 =============================================================================
